@@ -55,6 +55,21 @@ class OutputDimension:
     dtype: np.dtype
 
 
+def _get_output_dtype(dtype: np.dtype) -> np.dtype:
+    """Get a data type that holds the values of every parameter combination.
+
+    The data types of the outputs are only known for the first parameter combination.
+    A parameter (e.g. the ADC bit resolution) can change the integer data type of a
+    bucket, therefore the integers are stored with 64 bits.
+    """
+    if np.issubdtype(dtype, np.unsignedinteger):
+        return np.dtype(np.uint64)
+    elif np.issubdtype(dtype, np.signedinteger):
+        return np.dtype(np.int64)
+    else:
+        return dtype
+
+
 def get_gufunc_info(data_tree: "xr.DataTree") -> Sequence[OutputDimension]:
     """Extract metadata for the output dimensions used by 'xarray.apply_ufunc'."""
     lst: list[OutputDimension] = []
@@ -79,7 +94,7 @@ def get_gufunc_info(data_tree: "xr.DataTree") -> Sequence[OutputDimension]:
                     f"{sub_path}_{var_name}": var_size
                     for var_name, var_size in sub_data_tree.sizes.items()
                 },
-                dtype=data_variable.dtype,
+                dtype=_get_output_dtype(data_variable.dtype),
             )
 
             lst.append(output_dimension)
